@@ -52,7 +52,7 @@ RULE = ("grid A: 15 service types x 23 site placements of 0..4 interfaces over <
         "patterns (8 uniform + 4 mixed); grid B: service types x 5 placements x declared x {DedicatedPort, SharedPort} x every subset of the "
         "type's constrained properties; grid C: 6 node types x site/image/management_ip/component flags; grid D: natural builds (NICs, "
         "add_facility, add_switch, port mirror, peer(), dangling and owner-less interfaces, substrate topologies); grid E: edited tables; "
-        "grid F: service type x interface kind x constructor/connect_interface x fresh/connected; grid H: every constrained object-valued property "
+        "grid F: service type x interface kind x constructor/connect_interface x fresh/connected; grid G: an interface at another site connected and disconnected again before the final wiring (history must not matter); grid H: every constrained object-valued property "
         "(ero) given as an object without content (graph reference, no payload, path without hops) - also inside grid B. quick samples A and B; thorough runs all. "
         "naming: half of A/B/D use node and interface names whose derived '<node>-<interface>' service-port names all coincide (n1, n1-x, "
         ".. with x-x-p0, x-p0, ..); D adds NIC builds with prefix-related names (n1/nic-aa vs n1-nic/aa, nic1/nic10); interfaces are "
@@ -252,6 +252,20 @@ def grid_H():
                     yield service_case(ty, pl, "first", ["SharedPort"] * len(pl), props, how=how, naming="collide")
 
 
+def grid_G():
+    """always run: the verdict depends on the slice as it IS, not on how it got there - an interface at another site is
+    connected and disconnected again before (how=connect) or after (how=ctor) the final interfaces are wired"""
+    for ty in SVC_TYPES:
+        for K in ("DedicatedPort", "SharedPort"):
+            for pl in ([0, 1], [0, 1, 1], [0, 1, 2]):
+                for how in ("connect", "ctor"):
+                    c = service_case(ty, pl, "none", [K] * len(pl), baseline_props(ty), how=how)
+                    s = c["svcs"][0]
+                    s["churn"] = [x for x in s["ifs"] if x[0] == 0]
+                    s["ifs"] = [x for x in s["ifs"] if x[0] != 0]
+                    yield c
+
+
 def grid_C():
     for ty in NODE_TYPES:
         for site in ("RENC", ""):
@@ -415,6 +429,17 @@ class Built:
     pass
 
 
+def _churn(F, b, svc, s):
+    """connect and disconnect again the interfaces listed under 'churn' (history that must not matter)"""
+    for x in s.get("churn", ()):
+        i = b.iface[tuple(x)]
+        try:
+            svc.connect_interface(interface=i)
+        except F["TopologyException"]:
+            continue
+        svc.disconnect_interface(interface=i)
+
+
 def attach(F, t, svc, i):
     """connect_interface, or - when the guardrails refuse - the same wiring through add_interface + add_link;
     returns the name of the service port"""
@@ -538,7 +563,10 @@ def build(case, F):
                 pnames = [attach(F, t, svc, i) for i in ifs]
         else:
             svc = t.add_network_service(name=name, nstype=ST[s["ty"]], site=s["site"], **kw)
+            _churn(F, b, svc, s)
             pnames = [attach(F, t, svc, i) for i in ifs]
+        if s["how"] != "connect":
+            _churn(F, b, svc, s)
         svcs.append(svc)
         aifs = []
         for xi, x in enumerate(s["ifs"]):
@@ -624,7 +652,9 @@ def run_case(case):
                 api = extract(t, order, F)
                 srt = lambda d: [x[:4] + [sorted(x[4], key=canon)] + [list(x[5]) if len(x) > 5 else []] for x in d]   # the API lists interfaces in its own order
                 if canon(srt(api)) != canon(srt(mine)):
-                    return {"build_err": "abstraction differs from what the API reports: api %s harness %s" % (canon(api)[:400], canon(mine)[:400])}
+                    # the slice the API reports is not the slice the calls describe (e.g. a site recorded at connect time):
+                    # a disagreement between implementation and model of the building calls, not a harness failure
+                    out["xdiff"] = {"api": json.loads(canon(srt(api))), "calls": json.loads(canon(srt(mine)))}
                 out["xchecked"] = True
             node_sites_before = sorted((k, v.site) for k, v in list(t.nodes.items()) + list((t.facilities or {}).items()))
             with patched_table(F, case.get("ov")):
@@ -893,7 +923,7 @@ def case_list(ctx, tag):
     EXHAUSTIVE = bool(ctx.thorough)      # the grids are enumerated completely only in the thorough tier
     """corner cases first (C, D, F), then the A/B grids (all in thorough, a seeded sample in quick), then edited tables"""
     rng = ctx.sub_rng("cases")
-    fixed = corpus_cases() + list(grid_C()) + list(grid_D()) + list(grid_F()) + list(grid_H())
+    fixed = corpus_cases() + list(grid_C()) + list(grid_D()) + list(grid_F()) + list(grid_H()) + list(grid_G())
     ab = list(grid_A()) + list(grid_B())
     if not ctx.thorough:
         ab = rng.sample(ab, 1100)
@@ -935,6 +965,10 @@ def correspondence(ctx, res):
         else:
             res.count("build-failed")
             ctx.notes.append("build failed: %s" % o.get("build_err")) if len(ctx.notes) < 5 else None
+    for c, o in zip(cases, outs):
+        if o.get("xdiff"):
+            res.disagreements.append({"case": c, "impl": {"slice reported by the API": o["xdiff"]["api"]},
+                                      "model": {"slice described by the calls": o["xdiff"]["calls"]}})
     if sum(1 for o in outs if "request" not in o) > len(outs) // 50:
         raise Infra("too many cases could not be built: %s" % [o.get("build_err") for o in outs if "request" not in o][:3])
     model = LeanDriver("C10").run([json.dumps(r) for r in reqs])
@@ -1018,7 +1052,7 @@ def cases_for_diff(diff):
 
 
 def search(ctx, res, broken):
-    cases = list(grid_C()) + list(grid_D()) + list(grid_F()) + list(grid_H()) + list(grid_A()) + list(grid_B())
+    cases = list(grid_C()) + list(grid_D()) + list(grid_F()) + list(grid_H()) + list(grid_G()) + list(grid_A()) + list(grid_B())
     if not ctx.thorough:
         rng = ctx.sub_rng("search")
         cases = cases[:1200] + rng.sample(cases[1200:], 6000)
